@@ -49,3 +49,11 @@ func usage() {
 	fmt.Fprintf(os.Stderr, "usage: vcheck <ID> [--replay dir]; IDs: %v\n", ids)
 	os.Exit(2)
 }
+
+// repoDir: the repository under test (the registered checks always use /repo; snapshot sweeps may point elsewhere).
+func repoDir() string {
+	if d := os.Getenv("VERIF_REPO"); d != "" {
+		return d
+	}
+	return "/repo"
+}
